@@ -304,6 +304,8 @@ def parse_concentration(s: str, wv_units: str = None):
             p = u[:-1]
             if p not in PREFIX:
                 raise Reject('bad prefix')
+            if not math.isfinite(v * PREFIX[p]):
+                raise Reject('a concentration is a finite number')
             return v * PREFIX[p], 'mol', 'L'
         if u.endswith('m'):
             p = u[:-1]
@@ -347,7 +349,10 @@ def parse_concentration(s: str, wv_units: str = None):
     pd, bd = split_unit(du)
     if not math.isfinite(v):
         raise Reject('a concentration is a finite number')     # ('inf L' is how an unbounded capacity is written: quantities only)
-    return v * PREFIX[pn] / PREFIX[pd], bn, bd
+    out = v * PREFIX[pn] / PREFIX[pd]
+    if not math.isfinite(out):
+        raise Reject('a concentration is a finite number')     # ('1e308 kmol/L')
+    return out, bn, bd
 
 
 # --------------------------------------------------------------------------------------------------
@@ -433,10 +438,10 @@ def ref_address(rows, cols, item):
     """Reference addressing: -> (list of (i, j) in selection order, shape tuple).
 
     Raises Reject for out-of-range / malformed selectors, Unjudged for things the property does not
-    speak about (steps <= 0, bools, empty selections).
+    speak about (1-tuples, empty selections).
     """
     if isinstance(item, bool):
-        raise Unjudged('bool')
+        raise Reject('a bool is not an index')      # (malformed: True is an int to Python, not the index 1 of the grammar)
     if isinstance(item, str):
         if ':' in item:
             i, j = _single(item, rows, cols)
@@ -460,7 +465,7 @@ def ref_address(rows, cols, item):
         elif len(item) == 2:
             for e in item:
                 if isinstance(e, bool):
-                    raise Unjudged('bool')
+                    raise Reject('a bool is not an index')
                 if not isinstance(e, (int, str, slice)):
                     raise Reject('bad tuple element')
             ri = _axis(item[0], rows)
